@@ -403,14 +403,21 @@ func (r *MRepo) closure() (strictBlobs, strictMans, loose map[ociregistry.Digest
 	for _, tg := range r.Tags {
 		walk(tg.Digest, true)
 	}
-	// The implementation may parse a child by the media type its parent declares
-	// for it; anything so reachable is in the loose set too (it may be protected,
-	// it need not be). Approximated by: every digest mentioned in any JSON reachable
-	// manifest, under either OCI interpretation.
-	for d := range seenL {
+	// The implementation may follow references under the media type a referrer claims
+	// for a manifest, or under a type the manifest had earlier; anything reachable
+	// under any OCI interpretation of any reachable manifest is in the loose set (it
+	// may be protected, it need not be).
+	var walkLoose func(d ociregistry.Digest)
+	seenAny := map[ociregistry.Digest]bool{}
+	walkLoose = func(d ociregistry.Digest) {
+		if seenAny[d] {
+			return
+		}
+		seenAny[d] = true
+		loose[d] = true
 		mm := r.Manifests[d]
 		if mm == nil {
-			continue
+			return
 		}
 		for _, mt := range []string{MTImageManifest, MTImageIndex} {
 			bs, ms, sub, ok := parseRefs(mt, mm.Data)
@@ -419,14 +426,18 @@ func (r *MRepo) closure() (strictBlobs, strictMans, loose map[ociregistry.Digest
 			}
 			for _, x := range bs {
 				loose[x] = true
+				walkLoose(x)
 			}
 			for _, x := range ms {
-				loose[x] = true
+				walkLoose(x)
 			}
 			if sub != "" {
-				loose[sub] = true
+				walkLoose(sub)
 			}
 		}
+	}
+	for _, tg := range r.Tags {
+		walkLoose(tg.Digest)
 	}
 	return
 }
